@@ -203,3 +203,330 @@ pub fn c16(tier: &str, seed: u64) {
     }
   }
 }
+
+// ---------------------------------------------------------------------------------------------
+// C05: tamper matrix and mixtures; C02: sub-threshold collections, forged thresholds, byte scans,
+// coefficient statistics
+
+use num_bigint::BigUint;
+use num_traits::{One, Zero};
+use strobe_rs::{SecParam, Strobe};
+
+fn fault(g: &mut Sm, b: u8) -> u8 {
+  let nb = match g.below(4) {
+    0 => b ^ (1 << g.below(8)),
+    1 => b.wrapping_add(1),
+    2 => 0,
+    _ => 0xff,
+  };
+  if nb == b {
+    b ^ 1
+  } else {
+    nb
+  }
+}
+
+/// byte ranges of the fields of an encoded adss share
+fn share_fields(b: &[u8]) -> Vec<(&'static str, std::ops::Range<usize>)> {
+  let f = share_len_fields(b);
+  let rd = |o: usize| u32::from_le_bytes(b[o..o + 4].try_into().unwrap()) as usize;
+  let s = f[1] + 4;
+  let mut v = vec![("threshold", 0..4), ("share_point", s..s + 24)];
+  if rd(f[1]) > 24 {
+    v.push(("share_value", s + 24..s + rd(f[1])));
+  }
+  if rd(f[2]) > 0 {
+    v.push(("encrypted_message", f[2] + 4..f[2] + 4 + rd(f[2])));
+  }
+  if rd(f[3]) > 0 {
+    v.push(("encrypted_coins", f[3] + 4..f[3] + 4 + rd(f[3])));
+  }
+  v.push(("tag", b.len() - 64..b.len()));
+  v
+}
+
+pub fn c05(tier: &str, seed: u64) {
+  let mut g = Sm::new(seed, "oracle.C05");
+  let n = if quick(tier) { 25 } else { 300 };
+  for case_i in 0..n {
+    let t = g.range(1, if quick(tier) { 6 } else { 12 }) as u32;
+    let m = { let n = *g.pick(&[1usize, 4, 32, 40]); g.blob(n) };
+    let r = { let n = *g.pick(&[1usize, 8, 32]); g.blob(n) };
+    let c = Commune::new(t, m.clone(), r.clone(), None);
+    let cnt = t as usize + g.below(3) as usize;
+    let shares: Vec<Vec<u8>> = (0..cnt).map(|_| c.clone().share().unwrap().to_bytes()).collect();
+    let fields = share_fields(&shares[0]);
+    // every field x (every byte position | a sample) x share position
+    for pos in 0..cnt {
+      for (fname, range) in &fields {
+        let offs: Vec<usize> = if quick(tier) && range.len() > 6 {
+          let mut v = vec![range.start, range.end - 1];
+          for _ in 0..3 {
+            v.push(range.start + g.below(range.len() as u64) as usize);
+          }
+          v
+        } else {
+          range.clone().collect()
+        };
+        for off in offs {
+          let mut bs = shares.clone();
+          bs[pos][off] = fault(&mut g, bs[pos][off]);
+          let parsed: Option<Vec<AShare>> = bs.iter().map(|b| AShare::from_bytes(b)).collect();
+          let Some(p) = parsed else {
+            continue; // does not decode (e.g. out-of-range field element): nothing reaches recover
+          };
+          let res = std::panic::catch_unwind(std::panic::AssertUnwindSafe(|| recover(&p).map(|c| c.get_message()).map_err(|_| ())));
+          let d = vec![
+            ("field", fname.to_string()),
+            ("share_position", pos.to_string()),
+            ("byte_offset", off.to_string()),
+            ("threshold", t.to_string()),
+            ("shares", hexlist(&bs)),
+            ("original_message", hex(&m)),
+          ];
+          match res {
+            Err(_) => fail("recover_panicked", &d),
+            Ok(Ok(got)) => {
+              if got != m {
+                fail("recovered_other_message", &d);
+              } else if pos == 0 && !(t == 1 && *fname == "share_point") {
+                // (threshold 1: the polynomial is constant, so a share with another point and the
+                // same value IS an honest share of the same sharing - Lean: C05_threshold_one_point_free)
+                fail("altered_first_share_accepted", &d);
+              } else if pos == 0 {
+                stat("oracle.threshold1_point_changes_are_honest_shares");
+              }
+            }
+            Ok(Err(())) => {}
+          }
+          case(true);
+        }
+      }
+    }
+    // mixtures of up to 4 sharings, foreign shares in every position relative to the window
+    let others: Vec<(Vec<u8>, Vec<Vec<u8>>)> = (0..3)
+      .map(|k| {
+        let m2 = g.blob(4 + k);
+        let t2 = if g.chance(1, 2) { t } else { g.range(1, 6) as u32 };
+        let c2 = Commune::new(t2, m2.clone(), g.blob(8), None);
+        (m2, (0..cnt).map(|_| c2.clone().share().unwrap().to_bytes()).collect())
+      })
+      .collect();
+    for _ in 0..(if quick(tier) { 10 } else { 60 }) {
+      let mut pool: Vec<(usize, Vec<u8>)> = shares.iter().map(|b| (0usize, b.clone())).collect();
+      for (k, (_, sh)) in others.iter().enumerate() {
+        for b in sh.iter().take(g.below(cnt as u64 + 1) as usize) {
+          pool.push((k + 1, b.clone()));
+        }
+      }
+      g.shuffle(&mut pool);
+      let keep = g.range(1, pool.len() as u64) as usize;
+      pool.truncate(keep);
+      let first_owner = pool[0].0;
+      let expect: &Vec<u8> = if first_owner == 0 { &m } else { &others[first_owner - 1].0 };
+      let p: Vec<AShare> = pool.iter().map(|(_, b)| AShare::from_bytes(b).unwrap()).collect();
+      let res = std::panic::catch_unwind(std::panic::AssertUnwindSafe(|| recover(&p).map(|c| c.get_message()).map_err(|_| ())));
+      let d = vec![("owners", format!("{:?}", pool.iter().map(|x| x.0).collect::<Vec<_>>())), ("shares", hexlist(&pool.iter().map(|x| x.1.clone()).collect::<Vec<_>>()))];
+      match res {
+        Err(_) => fail("recover_panicked", &d),
+        Ok(Ok(got)) if &got != expect => fail("mixture_returned_foreign_message", &d),
+        _ => {}
+      }
+      case(true);
+    }
+    if case_i == 0 {
+      sample(&[("threshold", t.to_string()), ("fields", format!("{:?}", fields.iter().map(|f| f.0).collect::<Vec<_>>())), ("share", hex(&shares[0]))]);
+    }
+  }
+}
+
+fn contains(hay: &[u8], needle: &[u8]) -> Option<usize> {
+  if needle.is_empty() || hay.len() < needle.len() {
+    return None;
+  }
+  (0..=hay.len() - needle.len()).find(|&i| &hay[i..i + needle.len()] == needle)
+}
+
+/// coefficients (low to high) of the unique polynomial of degree < n through n points, mod p
+fn interpolate_coeffs(pts: &[(BigUint, BigUint)], p: &BigUint) -> Vec<BigUint> {
+  let n = pts.len();
+  let inv = |a: &BigUint| a.modpow(&(p - 2u32), p);
+  let mut res = vec![BigUint::zero(); n];
+  for i in 0..n {
+    // basis_i = prod_{j != i} (X - x_j) / (x_i - x_j)
+    let mut num = vec![BigUint::one()];
+    let mut den = BigUint::one();
+    for j in 0..n {
+      if j == i {
+        continue;
+      }
+      let mut next = vec![BigUint::zero(); num.len() + 1];
+      for (k, c) in num.iter().enumerate() {
+        next[k + 1] = (&next[k + 1] + c) % p;
+        next[k] = (&next[k] + c * ((p - &pts[j].0) % p)) % p;
+      }
+      num = next;
+      den = den * ((&pts[i].0 + p - &pts[j].0) % p) % p;
+    }
+    let scale = &pts[i].1 * inv(&den) % p;
+    for k in 0..n {
+      res[k] = (&res[k] + &num[k] * &scale) % p;
+    }
+  }
+  res
+}
+
+pub fn c02(tier: &str, seed: u64) {
+  let mut g = Sm::new(seed, "oracle.C02");
+  let p = crate::o_sharks::modulus();
+  let n = if quick(tier) { 40 } else { 500 };
+  let mut all_coeffs: std::collections::BTreeSet<Vec<u8>> = Default::default();
+  let mut coeff_total = 0usize;
+  for case_i in 0..n {
+    let t: u32 = match case_i % 5 {
+      0 => 2,
+      1 => 3,
+      2 => g.range(4, 12) as u32,
+      3 => g.range(13, if quick(tier) { 32 } else { 64 }) as u32,
+      _ => g.range(2, 20) as u32,
+    };
+    let m = { let n = g.range(8, 40) as usize; g.bytes(n) };
+    let e = g.blob(2);
+    let clients: Vec<Client> = (0..t as usize).map(|_| make_client(&m, &e, t, gen_aux(&mut g), None)).collect();
+    let shares: Vec<sta_rs::Share> = clients.iter().map(|c| c.msg.share.clone()).collect();
+    let r0 = share_recover(&shares).expect("honest recovery").get_message();
+    let d = |extra: Vec<(&'static str, String)>| {
+      let mut v = vec![("measurement", hex(&m)), ("epoch", hex(&e)), ("threshold", t.to_string())];
+      v.extend(extra);
+      v
+    };
+    let check_not_secret = |what: &str, sel: &[sta_rs::Share], extra: Vec<(&'static str, String)>| {
+      let res = std::panic::catch_unwind(std::panic::AssertUnwindSafe(|| share_recover(sel).map(|c| c.get_message()).map_err(|_| ())));
+      match res {
+        Err(_) => fail("recover_panicked", &d(extra)),
+        Ok(Ok(got)) => {
+          let mut ex = extra;
+          ex.push(("what", what.to_string()));
+          ex.push(("returned", hex(&got)));
+          ex.push(("shares", hexlist(&sel.iter().map(|s| s.to_bytes()).collect::<Vec<_>>())));
+          if got == r0 {
+            fail("sub_threshold_recovered_secret", &d(ex));
+          } else {
+            fail("sub_threshold_recovery_did_not_fail", &d(ex));
+          }
+        }
+        Ok(Err(())) => {}
+      }
+      case(true);
+    };
+    // every count 1..t-1 (quick: a sample), with duplicate padding up to and beyond t
+    for k in 1..t as usize {
+      if quick(tier) && t > 6 && !g.chance(1, 4) && k != t as usize - 1 {
+        continue;
+      }
+      let mut sel: Vec<sta_rs::Share> = shares[..k].to_vec();
+      check_not_secret("plain sub-threshold subset", &sel, vec![("distinct", k.to_string())]);
+      while sel.len() < t as usize + 1 {
+        let dup = sel[g.below(k as u64) as usize].clone();
+        sel.push(dup);
+      }
+      g.shuffle(&mut sel);
+      check_not_secret("sub-threshold subset padded with duplicates", &sel, vec![("distinct", k.to_string())]);
+      // forged threshold on the first share: every value 0..t-1 (sampled when large), t+1, 2^32-1
+      let mut forged: Vec<u32> = if t <= 8 || !quick(tier) { (0..t).collect() } else { vec![0, 1, k as u32, t - 1] };
+      forged.extend([t + 1, u32::MAX]);
+      for ft in forged {
+        let mut bs: Vec<Vec<u8>> = shares[..k].iter().map(|s| s.to_bytes()).collect();
+        bs[0][..4].copy_from_slice(&ft.to_le_bytes());
+        if g.chance(1, 2) {
+          for b in bs.iter_mut() {
+            b[..4].copy_from_slice(&ft.to_le_bytes());
+          }
+        }
+        let sel: Vec<sta_rs::Share> = bs.iter().map(|b| sta_rs::Share::from_bytes(b).unwrap()).collect();
+        check_not_secret("threshold field rewritten", &sel, vec![("distinct", k.to_string()), ("forged_threshold", ft.to_string())]);
+      }
+    }
+    // foreign shares (other measurement / epoch / threshold) mixed into a sub-threshold subset
+    let foreign: Vec<Client> = vec![
+      make_client(&g.bytes(12), &e, t, None, None),
+      make_client(&m, &g.blob(3), t, None, None),
+      make_client(&m, &e, t + 1, None, None),
+      make_client(&m, &e, (t - 1).max(1), None, None),
+    ];
+    for _ in 0..3 {
+      let k = g.range(1, t as u64 - 1) as usize;
+      let mut sel: Vec<sta_rs::Share> = shares[..k].to_vec();
+      for f in &foreign {
+        if g.chance(2, 3) {
+          let pos = g.below(sel.len() as u64 + 1) as usize;
+          sel.insert(pos, f.msg.share.clone());
+        }
+      }
+      // no measurement in the collection reaches its threshold (each foreign one has 1 share; k < t)
+      let ok_to_check = !(t == 2 && sel.iter().any(|s| s.to_bytes()[..4] == 1u32.to_le_bytes()));
+      if ok_to_check {
+        check_not_secret("foreign shares mixed in", &sel, vec![("distinct_of_target", k.to_string())]);
+      }
+    }
+    // (E) byte scan of each encoded report for the client's secrets
+    let rnd = clients[0].rnd;
+    let mut r1 = [0u8; 32];
+    sta_rs::strobe_digest(&rnd, &[&[1u8]], "star_derive_randoms", &mut r1);
+    let mut enc_key = [0u8; 16];
+    derive_ske_key(&r0, &e, &mut enc_key);
+    let mut tr = Strobe::new(b"adss", SecParam::B128);
+    tr.ad(&t.to_le_bytes(), false);
+    tr.ad(&r0, false);
+    tr.key(&r1, false);
+    let mut j = [0u8; 64];
+    tr.send_mac(&mut j, false);
+    let mut kk = [0u8; 16];
+    tr.prf(&mut kk, false);
+    let mut k24 = kk.to_vec();
+    k24.extend([0u8; 8]);
+    for c in &clients {
+      let b = c.msg.to_bytes();
+      for (name, sec) in [("client randomness", &rnd[..]), ("r0", &r0[..]), ("r1", &r1[..]), ("sharing key K", &kk[..]), ("K as field element", &k24[..]), ("encryption key", &enc_key[..]), ("measurement", &m[..])] {
+        if let Some(off) = contains(&b, sec) {
+          fail("secret_in_clear_in_report", &d(vec![("secret", name.to_string()), ("offset", off.to_string()), ("report", hex(&b))]));
+        }
+        stat("oracle.byte_scans");
+      }
+    }
+    // (E) the shares lie on a polynomial of exact degree t-1 with constant term K, whose
+    // non-constant coefficients are non-zero and pairwise distinct
+    let pts: Vec<(BigUint, BigUint)> = shares
+      .iter()
+      .map(|s| {
+        let b = s.to_bytes();
+        (BigUint::from_bytes_le(&b[8..32]), BigUint::from_bytes_le(&b[32..56]))
+      })
+      .collect();
+    if pts.iter().map(|x| x.0.clone()).collect::<std::collections::BTreeSet<_>>().len() == pts.len() {
+      let co = interpolate_coeffs(&pts, &p);
+      if co[0] != BigUint::from_bytes_le(&kk) {
+        fail("constant_term_is_not_the_key", &d(vec![]));
+      }
+      let nonconst: Vec<&BigUint> = co[1..].iter().collect();
+      if nonconst.iter().any(|c| c.is_zero()) {
+        fail("zero_coefficient", &d(vec![("coefficients", format!("{:?}", co.iter().map(|c| c.to_str_radix(16)).collect::<Vec<_>>()))]));
+      }
+      if nonconst.iter().collect::<std::collections::BTreeSet<_>>().len() != nonconst.len() {
+        fail("repeated_coefficient", &d(vec![("coefficients", format!("{:?}", co.iter().map(|c| c.to_str_radix(16)).collect::<Vec<_>>()))]));
+      }
+      for c in nonconst {
+        coeff_total += 1;
+        if !all_coeffs.insert(c.to_bytes_le()) {
+          fail("coefficient_shared_between_measurements", &d(vec![("coefficient", c.to_str_radix(16))]));
+        }
+      }
+    } else {
+      stat("oracle.share_point_collision");
+    }
+    if case_i == 0 {
+      sample(&[("threshold", t.to_string()), ("measurement", hex(&m)), ("report", hex(&clients[0].msg.to_bytes()))]);
+    }
+  }
+  stat_n("oracle.coefficients_checked", coeff_total as u64);
+}
